@@ -17,6 +17,7 @@ import (
 	"github.com/pingcap/kvproto/pkg/pdpb"
 	"github.com/tikv/pd/server/core"
 	"github.com/tikv/pd/server/kv"
+	"github.com/tikv/pd/server/schedule/placement"
 )
 
 type verifFailConfigKV struct {
@@ -72,6 +73,15 @@ func (s *verifReplicationRollbackSuite) TestVerifReplayReplicationRollback(c *C)
 	if after.Count != beforeCount || !reflect.DeepEqual(append([]string{}, after.LocationLabels...), beforeLabels) {
 		c.Fatalf("failed update (%v) changed the served default rule: count %d labels %v -> count %d labels %v",
 			err, beforeCount, beforeLabels, after.Count, after.LocationLabels)
+	}
+	// the rollback must have reached the storage too: a rule manager started on the same storage loads what is served
+	fresh := placement.NewRuleManager(good, nil)
+	c.Assert(fresh.Initialize(3, nil), IsNil)
+	stored := fresh.GetRule("pd", "default")
+	c.Assert(stored, NotNil)
+	if stored.Count != after.Count || !reflect.DeepEqual(append([]string{}, stored.LocationLabels...), append([]string{}, after.LocationLabels...)) {
+		c.Fatalf("after the failed update the STORED default rule (count %d labels %v) differs from the served one (count %d labels %v): the rollback was not written",
+			stored.Count, stored.LocationLabels, after.Count, after.LocationLabels)
 	}
 	// and the next, valid update must not be refused because of leftovers
 	cfg2 := *old.Clone()
